@@ -67,6 +67,16 @@ func TestVerifExpander(t *testing.T) {
 			want, refErr := expand.XMD(md.h, msg, dst, out)
 			dstKeep, msgKeep := lib.Clone(dst), lib.Clone(msg)
 			var got, got2 []byte
+			// DST and message as adjacent sub-slices of one buffer (the DST's capacity
+			// reaches over the message and a canary)
+			frame := append(append(append(make([]byte, 0, len(dst)+len(msg)+8), dst...), msg...), 0xA5, 0x5A, 0xA5, 0x5A, 0xA5, 0x5A, 0xA5, 0x5A)
+			frameKeep := lib.Clone(frame)
+			dst, msg = frame[:len(dst)], frame[len(dst):len(dst)+len(msg)]
+			defer func() {
+				if !lib.Eq(frame, frameKeep) {
+					lib.Violation("C15:input-modified:expander:memory-behind-the-DST-or-message", mon, lib.D("before", frameKeep, "after", frame))
+				}
+			}()
 			e := expander.NewExpanderMD(md.h, dst)
 			p := lib.Try(name, msg, func() {
 				got = e.Expand(msg, uint(out))
@@ -121,6 +131,16 @@ func TestVerifExpander(t *testing.T) {
 		want, refErr := expand.XOF(x.ref, int(x.k), msg, dst, out)
 		dstKeep, msgKeep := lib.Clone(dst), lib.Clone(msg)
 		var got, got2 []byte
+		// DST and message as adjacent sub-slices of one buffer (the DST's capacity
+		// reaches over the message and a canary)
+		frame := append(append(append(make([]byte, 0, len(dst)+len(msg)+8), dst...), msg...), 0xA5, 0x5A, 0xA5, 0x5A, 0xA5, 0x5A, 0xA5, 0x5A)
+		frameKeep := lib.Clone(frame)
+		dst, msg = frame[:len(dst)], frame[len(dst):len(dst)+len(msg)]
+		defer func() {
+			if !lib.Eq(frame, frameKeep) {
+				lib.Violation("C15:input-modified:expander:memory-behind-the-DST-or-message", mon, lib.D("before", frameKeep, "after", frame))
+			}
+		}()
 		e := expander.NewExpanderXOF(x.id, x.k, dst)
 		p := lib.Try(name, msg, func() {
 			got = e.Expand(msg, uint(out))
